@@ -6,7 +6,7 @@ from ..common import Names, rat, run_impl, condensed_map
 from . import c01
 
 PROP = "C09"
-LEAN_MODULE = "VK.Props.C09"
+LEAN_MODULE = "VK.Check.C09"
 THEOREMS = [
     "VK.C09_normIndex",
     "VK.C09_negative_index",
